@@ -49,26 +49,75 @@ mod proofs {
 '''
 
 
+G = os.path.dirname(os.path.dirname(os.path.abspath(__file__)))
+LEVEL_TEXT = ('bounded model checking of the body of DepfileSpec::to_string with the string engine (String::replace, format!) replaced by a fixed-capacity model: for every target / prerequisite name of the stated lengths '
+              'over printable ASCII the written line reads back (ninja / cargo style unescaping) to exactly the target and the prerequisites')
+OUTSIDE = ['completeness and exactness of the reported file set (libclang inclusion directives vs clang -M): the larger half of the property', 'CargoCallbacks printing', 'String::replace and format! themselves (modelled; the real ones do not finish under CBMC, measured)',
+           "names longer than 4 bytes, more than 2 prerequisites, non-ASCII bytes, ':' and newline in names", "GNU make's own reader ('#', '$' are written unescaped: make proper would not read such names back; ninja / cargo style readers do); documented, not filed"]
+EXPLANATION = 'All bytes of all names are symbolic (no class patterns needed any more); name LENGTHS are harness parameters.'
+
+
 def build(tier, seed):
     def k():
         src = strip_test_mods(strip_inner(rd('deps.rs')))
-        pats = [([0], [0]), ([0, 1, 0], [0]), ([2, 1], [0, 0]), ([2, 2, 0], [1, 0]), ([0, 2], [0, 2, 1]), ([0], [0, 1, 2]), ([1, 2], [2, 2]), ([0, 2, 2], [0, 1, 0])]
+        ts = extract(src, r'^    fn to_string\(&self, deps: &BTreeSet<Box<str>>\) -> String \{', what='DepfileSpec::to_string')
+        t = ts
+        if t.count('.replace(') < 1:
+            raise SliceError('to_string: no .replace( call left')
+        t = t.replace('.replace(', '.verif_replace(')
+        t, n1 = re.subn(r'format!\("\{\}:", (.*?)\);', r'fmt_target(\1);', t)
+        t, n2 = re.subn(r'format!\("\{buf\} \{\}", (.*?)\);', r'fmt_append(&buf, \1);', t)
+        if n1 != 1 or n2 != 1:
+            raise SliceError('to_string: format! shapes changed (%d, %d)' % (n1, n2))
         gen, hs = [], []
-        for i, (tp, dp) in enumerate(pats):
-            name = 'depfile_t%s_d%s' % (''.join(map(str, tp)), ''.join(map(str, dp)))
-            gen.append('#[kani::proof] #[kani::unwind(%d)] #[kani::stub(core::slice::memchr::memchr, naive_memchr)] fn %s() { case::<%d, %d>(%s, %s) }' % (
-                2 * (len(tp) + len(dp)) + 8, name, len(tp), len(dp), tp, dp))
-            hs.append(H(name, stubbing=True, timeout=1200, weight=2, tier='quick' if i in (1, 2, 4) else 'thorough',
-                        desc='target class pattern %s, prerequisite pattern %s (0 other, 1 space, 2 backslash): written line reads back to the same names' % (tp, dp), sample={'target': tp, 'dep': dp}))
+        for (T, D1, D2, tier_) in ((1, 1, 0, 'quick'), (2, 3, 0, 'quick'), (3, 2, 2, 'quick'), (4, 4, 0, 'thorough'), (2, 4, 3, 'thorough'), (4, 1, 4, 'thorough')):
+            name = 'depfile_t%d_d%d_%d' % (T, D1, D2)
+            gen.append('#[kani::proof] #[kani::unwind(%d)] fn %s() { case::<%d, %d, %d>() }' % (30, name, T, D1, D2))
+            hs.append(H(name, timeout=1200, weight=2, tier=tier_, desc='target of %d bytes, prerequisites of %d%s bytes, every byte symbolic: the written line reads back to the same names' % (T, D1, (' and %d' % D2) if D2 else ''), sample={'target_len': T, 'dep_lens': [D1] + ([D2] if D2 else [])}))
         kern = Kernel(name='depfile')
-        kern.files = {'src/lib.rs': '#![allow(warnings)]\n' + src + HARNESS.replace('/*GENERATED*/', '\n    '.join(gen))}
+        kern.files = {'src/lib.rs': open(os.path.join(G, 'harness', 'c17_depfile.rs')).read().replace('/*TO_STRING*/', t).replace('/*GENERATED*/', '\n    '.join(gen))}
         kern.harnesses = hs
-        kern.encoded = [enc('deps.rs', 'DepfileSpec::to_string', rd('deps.rs'))]
-        kern.stubs = ['-Z stubbing: core::slice::memchr::memchr -> naive loop']
-        kern.assumptions = ['reader = the inverse of the documented escaping (backslash quotes the next byte, bare space separates, first token ends with ":")', '"other" bytes are printable ASCII except space, backslash, colon']
-        kern.bounds = ['names of 1..3 bytes, one prerequisite; %d class patterns' % len(pats)]
+        kern.encoded = [enc('deps.rs', 'DepfileSpec::to_string', ts)]
+        kern.stubs = ['mechanical rewrites: .replace(c, s) -> .verif_replace(c, s) (byte-wise model on a fixed-capacity string), format!("{}:", x) -> fmt_target(x), format!("{buf} {}", x) -> fmt_append(&buf, x)',
+                      'String = fixed-capacity string (28 bytes); BTreeSet<Box<str>> = list of borrowed names in the given order']
+        kern.assumptions = ['reader = ninja / cargo style: backslash quotes the next byte, a bare space separates, the first token ends with ":"', 'names: printable ASCII except ":"']
+        kern.bounds = ['names of 1..4 bytes, 1..2 prerequisites; all bytes symbolic']
         return [kern]
+    def reporting():
+        lib = rd('lib.rs'); ctxs = rd('ir/context.rs'); item = rd('ir/item.rs')
+        st = extract(lib, r'^pub struct CargoCallbacks \{', with_attrs=False, what='struct CargoCallbacks')
+        im = extract(lib, r'^impl CargoCallbacks \{', what='impl CargoCallbacks')
+        pc = extract(lib, r'^impl callbacks::ParseCallbacks for CargoCallbacks \{', what='impl ParseCallbacks for CargoCallbacks')
+        m = re.search(r'let deps = [^;]*;', ctxs)
+        if not m or 'input_headers' not in m.group(0):
+            raise SliceError('BindgenContext::new: dependency seeding statement not found')
+        seed = m.group(0)
+        m = re.search(r'for header in &self\.options\.input_headers \{', lib)
+        if not m:
+            raise SliceError('Builder::generate: header announcement loop not found')
+        loop = lib[m.start():match_brace(lib, m.end() - 1)]
+        if 'header_file' not in loop:
+            raise SliceError('Builder::generate: header announcement loop changed shape')
+        m = re.search(r'CXCursor_InclusionDirective => \{', item)
+        if not m:
+            raise SliceError('Item::parse: InclusionDirective arm not found')
+        arm = item[m.end():match_brace(item, m.end() - 1) - 1]
+        h = (open(os.path.join(G, 'harness', 'c17_reporting.rs')).read().replace('/*CARGO_STRUCT*/', st).replace('/*CARGO_IMPL*/', im).replace('/*CARGO_PARSECALLBACKS*/', pc)
+             .replace('/*SEED_STATEMENT*/', seed).replace('/*HEADER_LOOP*/', loop).replace('/*INCLUSION_ARM*/', arm))
+        kern = Kernel(name='reporting')
+        kern.files = {'src/lib.rs': h}
+        kern.harnesses = [H('cargo_callbacks_print_one_line_per_notification', timeout=600, desc='CargoCallbacks: include_file -> one rerun-if-changed line always; read_env_var -> one rerun-if-env-changed line; header_file -> a line iff rerun_on_header_files; new() reports headers', sample='both settings'),
+                          H('every_input_header_is_a_dependency_and_is_announced', timeout=900, desc='BindgenContext::new seeds the dependency set with exactly the input headers; Builder::generate announces each input header to each callback once', sample='0..3 headers (ids 0..7, repeats allowed), 0..3 callbacks'),
+                          H('every_included_file_is_reported_and_recorded', timeout=900, desc='Item::parse, InclusionDirective arm: a named included file goes to every callback once and into the dependency set; a nameless one nowhere', sample='0..3 callbacks')]
+        kern.encoded = [enc('lib.rs', 'struct CargoCallbacks + impl + impl ParseCallbacks', st + im + pc), enc('ir/context.rs', 'BindgenContext::new: let deps = ..', seed), enc('lib.rs', 'Builder::generate: for header in &self.options.input_headers {..}', loop),
+                        enc('ir/item.rs', 'Item::parse: CXCursor_InclusionDirective arm', arm)]
+        kern.stubs = ['println!: one arm per literal cargo directive, appends to a log', 'file names: ids 0..7; lists behave as slices; callbacks count what they are told', 'Cursor::get_included_file_name: symbolic']
+        kern.bounds = ['<= 3 input headers, <= 3 callbacks']
+        return kern
+    ks = []
     try:
-        return k()
+        ks += k()
     except SliceError as e:
-        return [Kernel(name='depfile', error='slice-failed: %s' % e)]
+        ks.append(Kernel(name='depfile', error='slice-failed: %s' % e))
+    ks.append(kernel_or_error('reporting', reporting))
+    return ks
